@@ -27,7 +27,9 @@ def oracle(s, r):
     I = np.eye(N)
     normA = np.abs(At).sum(axis=1).max()
     Xs = {}
-    for strat, Aother in (("give", At), ("take", Ag)):
+    variants = sorted(k[2:] for k in r if k.startswith("X_") and not k.endswith(("_csr", "_wide_rhs", "_wide_sol")))
+    for strat in variants:
+        Aother = At if strat.startswith("give") else Ag
         X = r["X_" + strat]
         Xs[strat] = X
         if not np.all(np.isfinite(X)):
@@ -41,7 +43,7 @@ def oracle(s, r):
         if ratio > THR_RES:
             j = int(np.argmax((Rm / np.maximum(scale, 1e-300)).max(axis=0)))
             viols.append(("residual:" + strat, "X_%s: A_%s x - e_j is %.3g x eps(|A||x|+|b|) for unit right-hand side j=%d"
-                          % (strat, "take" if strat == "give" else "give", ratio, j), {"column": j}))
+                          % (strat, "take" if strat.startswith("give") else "give", ratio, j), {"column": j}))
         # wide dynamic range right-hand sides
         W, WX = r["X_%s_wide_rhs" % strat], r["X_%s_wide_sol" % strat]
         if not np.all(np.isfinite(WX)):
@@ -63,24 +65,29 @@ def oracle(s, r):
             viols.append(("csr:%s:%s:%s" % (strat, c03._row_class(info, ri), c03._offset(info, ri, rj)),
                           "assembled solver matrix (%s) differs from the operator at row (%d,%d) col (%d,%d): %.17g vs %.17g"
                           % (strat, ri[0], ri[1], rj[0], rj[1], M[i, j], Aother[i, j]), {"row": ri, "col": rj}))
-    if len(Xs) == 2:
-        Xg, Xt = Xs["give"], Xs["take"]
+    if len(variants) < 4:
+        viols.append(("missing-variants", "expected give/take x 2 thread counts", {}))
+    if "take" in Xs:
+        Xt = Xs["take"]
         normX = np.abs(Xt).sum(axis=1).max()
         cond = normA * normX
-        d = float(np.abs(Xg - Xt).max() / (ol.EPS * cond * np.abs(Xt).max()))
-        stats["worst_give_take_ratio"] = d
         stats["max_cond"] = float(cond)
-        if d > THR_XX:
-            viols.append(("give-vs-take", "direct solvers of the two strategies differ by %.3g x eps*cond*|X|" % d, {}))
-    stats["columns"] = 2 * (N + 6)
+        for strat, Xg in Xs.items():
+            if strat == "take":
+                continue
+            d = float(np.abs(Xg - Xt).max() / (ol.EPS * cond * np.abs(Xt).max()))
+            stats["worst_give_take_ratio"] = max(stats.get("worst_give_take_ratio", 0.0), d)
+            if d > THR_XX:
+                viols.append(("variant-vs-take:" + strat, "direct solver %s differs from take by %.3g x eps*cond*|X|" % (strat, d), {}))
+    stats["columns"] = len(variants) * (N + 6)
     return viols, stats
 
 
 def cases_for(tier):
     if tier == "thorough":
         return ol.lattice([5, 6, 7, 8, 9, 11, 13, 17], [4, 8, 12, 16, 20, 24, 32], "geo,A11,X", tier,
-                          cycle_offsets=(0, 1, 2), threads_cycle=(1, 1, 3))
-    return ol.lattice([5, 6, 7, 8, 9, 11], [4, 8, 12, 16], "geo,A11,X", tier, threads_cycle=(1, 1, 1, 3))
+                          cycle_offsets=(0, 1, 2), extra={"tlist": "1,3"})
+    return ol.lattice([5, 6, 7, 8, 9, 11], [4, 8, 12, 16], "geo,A11,X", tier, extra={"tlist": "1,3"})
 
 
 def main(tier):
